@@ -316,3 +316,7 @@ func Tickers() int                        { return 0 }
 func TickInterval(i int) time.Duration    { return -1 }
 
 func FireTicker(i int) bool { time.Sleep(10 * time.Millisecond); return false }
+
+func KVConflicts() int  { return 0 }
+func OnCrash(f func())  {}
+func NoCrash()          {}
